@@ -883,7 +883,6 @@ fn key128(m: &M) -> u128 {
 }
 
 fn main() {
-    vx_core::quiet_error_backtraces();
     let check = Check::from_args("C11", Level::ModelChecking);
     let depth: usize = std::env::var("VERIF_C11_DEPTH").ok().and_then(|s| s.parse().ok()).unwrap_or(check.pick(4, 5));
     check.set_rule(&format!("conversions: every source of the boundary universe (Empty; 37 texts as Str, as one-item Strs and all 37^2 two-item Strs; U8/I16/U16/I32/U32/I64/U64 with no item, 0, MIN, MAX, -1, every power-of-two boundary that fits, 2- and 3-item lists; F32/F64 with zeros, NaN, infinities, extremes, f32-range boundary doubles; Tags/Date/Time/DateTime with 0-2 items) x 20 targets x 3 entry points, plus all 2^8 U8 and all 2^16 I16/U16 one-item values x 20 targets; a case = (source, entry point, target). histories: breadth-first over the model states reachable from 44 roots (16 variants x 0-2 items) by 18 operations up to depth {depth}; states deduplicated by (variant, items); every transition = the whole history re-executed on a fresh real PrimitiveValue with the observable compared after every step; non-trivial = the conversion / operation executed"));
